@@ -183,7 +183,7 @@ def build_root():
     return d
 
 
-ZOO_TUS = [(0, 4), (4, 8), (8, 10), (10, 16), (16, 19)]
+ZOO_TUS = [(0, 4), (4, 8), (8, 10), (10, 16), (16, 19), (19, 20)]
 
 
 def probes(variant):
